@@ -21,8 +21,21 @@ def units(text):
     return out
 
 
+_ADJ_CACHE = {}
+
+
+def adjacent_ok(a, b):
+    """may spellings a, b be written with nothing in between and still lex as exactly a, b?"""
+    k = (a, b)
+    if k not in _ADJ_CACHE:
+        t = corpus.lex_tokens(a + b)
+        _ADJ_CACHE[k] = [v for _, v in t] == [a, b] and "\"" not in a + b and "'" not in a + b
+    return _ADJ_CACHE[k]
+
+
 def render(us, style, rng, record=None):
-    """style: 'line' (one token per line), 'single' (one line, pragmas excepted), 'indent' (random
+    """style: 'line' (one token per line), 'single' (one line, pragmas excepted), 'tight' (no blank
+    wherever two tokens may be adjacent), 'indent' (random
     blanks/tabs/newlines), 'markers' (linemarkers between arbitrary tokens).
     record: optional list receiving (spelling, line, col, file) per token as laid out."""
     parts = []
@@ -68,6 +81,12 @@ def render(us, style, rng, record=None):
             put("\n")
         elif style == "single":
             put(" ")
+        elif style == "tight":
+            nxt = us[k + 1] if k + 1 < len(us) else None
+            if nxt is not None and nxt[0] == "tok" and adjacent_ok(val, nxt[1]) and rng.random() < 0.85:
+                pass
+            else:
+                put(" ")
         elif style == "indent":
             put(rng.choice([" ", "  ", "\t", "\n", "\n    ", " \n\t", "\n\n"]))
         else:
